@@ -7,6 +7,7 @@ from common import sx, q, jq, cname, ok
 from units import U
 
 ID = 'C09'
+FSET_LABELS = True      # ... and a share with labels that are themselves frozensets (joint tickets): a reported tie names the candidates, not their members
 ZERO_LABELS = True      # a share of the cases is asked with candidates numbered from 0 (harness/common.py LABEL_MODE)
 LEVEL = 'proof'
 # The bodies of util.sorted_votes, core.get_n_best and Plurality.evaluate are regenerated from the source on every run
